@@ -109,6 +109,30 @@ CHECKS = {
         technique=TECH + "seeded graph-mutation histories with probes after every step against a "
                          "from-scratch reachability model; simulated scheduler for ui dispatch",
         design="4 (C08)"),
+    "C09": dict(
+        level="exploration",
+        text=("Seeded simulated histories over the C08 graph world with a registration table "
+              "keyed by (handler, expression, dispatch): interleaved observe add/remove for 1-3 "
+              "function and bound-method handlers in text, re-spelled text, parsed and "
+              "expression-object form, graph mutations each followed by probes (one call per "
+              "live registration key iff reachable), removals at count 0 (NotifierNotFound, "
+              "nothing changes), placement faults (a node lacking the trait or a plain list "
+              "where a TraitList is required, placed at a generated position of the registration "
+              "walk: the registration must raise and the population of observer notifiers on "
+              "every object, trait and container must be exactly as before), re-entrant "
+              "add/remove of registrations from inside handlers, deliveries pending across "
+              "unregistration under the simulated scheduler, silent desynchronisation followed "
+              "by a removal (atomicity), and dropping roots / handler owners / nodes with gc "
+              "(weakref liveness must equal a strong-reference walk of the model). Whenever the "
+              "table returns to all-zero no observer notifier may remain anywhere. Sampling, "
+              "not proof."),
+        note=("Poison objects are placed only while no registration exists; level-aliasing "
+              "histories (K1) are excluded by the model-side guard; re-entrant (un)registration "
+              "is restricted to registrations whose walk the in-flight change does not re-hook."),
+        technique=TECH + "seeded registration/graph/fault histories with notifier-population "
+                         "snapshots, placement faults on the registration walk, gc/drop events "
+                         "and a simulated scheduler",
+        design="4 (C09)"),
 }
 
 NOT_APPLICABLE = {
